@@ -5,7 +5,8 @@
 //     that the model can recompute key, shares and ciphertext); A sends B a signed ANNOUNCE carrying the manifest -- genuine or
 //     with one corruption (hash / nonce / share byte, threshold, a repeated share index, ...) -- and then a signed CHUNK with
 //     the replica bytes; B's ACK is read.  Then hostile actions: raw bytes on A's session, well-formed frames with arbitrary
-//     plaintext, pre-handshake TCP connections to B's transport port with arbitrary bytes; after each, C probes B.
+//     plaintext, pre-handshake TCP connections to B's transport port with arbitrary bytes, and length-field sweeps over valid
+//     messages (every offset: 32-bit words whose sum wraps around, message cut there), signed or pre-handshake; after each, C probes B.
 //   mode 3 (control): the real ControlServer::Impl::handle_client over a socketpair, on the node that holds the chunk: requests
 //     made of arbitrary header fields ($MANIFEST / $TAMPERED stand for the genuine / corrupted URI), or raw request bytes;
 //     the CODE of the response is read, then a PING must still be answered.
@@ -46,6 +47,7 @@ public:
 #define private public
 #include "daemon/ControlServer.cpp"
 #undef private
+#include "ephemeralnet/crypto/HmacSha256.hpp"
 #include "ephemeralnet/network/SessionManager.hpp"
 #include "ephemeralnet/protocol/Manifest.hpp"
 #include "ephemeralnet/protocol/Message.hpp"
@@ -124,8 +126,11 @@ static i64 code_of(const std::string& response) {
     return code.rfind("ERR_", 0) == 0 ? 60 : 61;
 }
 
+void hv_install_daemon_signal_handlers();
+
 int main() {
     static int counter = 0;
+    hv_install_daemon_signal_handlers();        // what `eph serve` installs before it starts its transport (src/main.cpp)
     return hv::main_loop([](In& in, Out& out) {
         const i64 mode = in.next();
         const en::ChunkId cid = in.id32();
@@ -195,6 +200,57 @@ int main() {
                 const i64 acode = in.next(); const auto bytes = in.bytes();
                 if (acode == 0) { if (A->fd >= 0) (void)!::send(A->fd, bytes.data(), bytes.size(), MSG_NOSIGNAL | MSG_DONTWAIT); }
                 else if (acode == 1) A->sm->send(bid, bytes);
+                else if (acode == 5) {
+                    // a peer with a session asks for the held chunk and hangs up before the answer: B writes into a closed connection
+                    auto* D = new Peer(); D->id[0] = 0xD1; D->id[1] = static_cast<std::uint8_t>(f); D->id[31] = 5;
+                    if (join(*B, bid, *D, 43u + static_cast<std::uint32_t>(f))) {
+                        pr::Message req{}; req.version = pr::kCurrentMessageVersion; req.type = pr::MessageType::Request;
+                        pr::RequestPayload rp{}; rp.chunk_id = held; rp.requester = D->id; req.payload = rp;
+                        send_msg(*D, bid, req);
+                        ::shutdown(D->fd, SHUT_RDWR);
+                        std::this_thread::sleep_for(std::chrono::milliseconds(30));
+                    }
+                }
+                else if (acode == 3 || acode == 4) {
+                    // length-field sweep over a valid message: at every offset of its encoding, 1..3 consecutive 32-bit words are
+                    // replaced by values whose sum wraps around to the size of what follows, and the message is cut there; each
+                    // variant is signed and sent over A's session (3) or sent unsigned where the transport handshake is expected (4)
+                    const i64 which = bytes.size() > 0 ? bytes[0] % 3 : 0, words = bytes.size() > 1 ? 1 + bytes[1] % 3 : 3, tail = bytes.size() > 2 ? bytes[2] % 8 : 0;
+                    pr::Message base{}; base.version = pr::kCurrentMessageVersion;
+                    if (which == 0) { base.type = pr::MessageType::Announce; pr::AnnouncePayload x{}; x.chunk_id = cid; x.peer_id = A->id; x.ttl = std::chrono::seconds(60); x.manifest_uri = genuine_uri; x.endpoint = "203.0.113.9:4000"; x.assigned_shards = {1}; base.payload = x; }
+                    else if (which == 1) { base.type = pr::MessageType::Chunk; pr::ChunkPayload x{}; x.chunk_id = cid; x.data = ct; x.ttl = std::chrono::seconds(60); base.payload = x; }
+                    else { base.type = pr::MessageType::Request; pr::RequestPayload x{}; x.chunk_id = cid; x.requester = A->id; base.payload = x; }
+                    const auto enc = pr::encode(base);
+                    const std::size_t limit = std::min<std::size_t>(enc.size(), 160);
+                    const bool in_place = bytes.size() > 3 ? (bytes[3] % 2 == 0) : true;      // keep what follows the words, or cut there
+                    for (std::size_t off = 2; off + 4 * static_cast<std::size_t>(words) <= limit; ++off) {
+                        std::vector<std::uint8_t> body(enc.begin(), enc.begin() + static_cast<std::ptrdiff_t>(off));
+                        // words: 0xFFFFFFFF, then values that bring the sum (mod 2^32) to `tail`
+                        std::vector<std::uint32_t> vals(static_cast<std::size_t>(words), 0u);
+                        vals[0] = 0xFFFFFFFFu;
+                        if (words >= 2) vals[1] = static_cast<std::uint32_t>(tail) + 1u; else vals[0] = 0xFFFFFFFFu;
+                        for (auto v : vals) { body.push_back(static_cast<std::uint8_t>(v >> 24)); body.push_back(static_cast<std::uint8_t>(v >> 16)); body.push_back(static_cast<std::uint8_t>(v >> 8)); body.push_back(static_cast<std::uint8_t>(v)); }
+                        if (in_place) body.insert(body.end(), enc.begin() + static_cast<std::ptrdiff_t>(off + 4 * static_cast<std::size_t>(words)), enc.end());
+                        else for (i64 k = 0; k < tail; ++k) body.push_back(static_cast<std::uint8_t>(0x41 + k));
+                        if (acode == 3) {
+                            const auto mac = en::crypto::HmacSha256::compute(std::span<const std::uint8_t>(A->key), body);
+                            auto frame = body; frame.insert(frame.end(), mac.begin(), mac.end());
+                            A->sm->send(bid, frame);
+                        } else if (off % 4 == 2) {
+                            const int fd = ::socket(AF_INET, SOCK_STREAM, 0);
+                            sockaddr_in a{}; a.sin_family = AF_INET; a.sin_addr.s_addr = htonl(INADDR_LOOPBACK); a.sin_port = htons(B->transport_port());
+                            if (::connect(fd, reinterpret_cast<sockaddr*>(&a), sizeof a) == 0) {
+                                std::vector<std::uint8_t> pre(32, 0x42);
+                                const auto len = static_cast<std::uint32_t>(body.size());
+                                pre.push_back(static_cast<std::uint8_t>(len >> 24)); pre.push_back(static_cast<std::uint8_t>(len >> 16)); pre.push_back(static_cast<std::uint8_t>(len >> 8)); pre.push_back(static_cast<std::uint8_t>(len));
+                                pre.insert(pre.end(), body.begin(), body.end());
+                                (void)!::send(fd, pre.data(), pre.size(), MSG_NOSIGNAL);
+                                char byte; timeval tv{0, 20000}; ::setsockopt(fd, SOL_SOCKET, SO_RCVTIMEO, &tv, sizeof tv); (void)!::recv(fd, &byte, 1, 0);
+                            }
+                            ::close(fd);
+                        }
+                    }
+                }
                 else {
                     const int fd = ::socket(AF_INET, SOCK_STREAM, 0);
                     sockaddr_in a{}; a.sin_family = AF_INET; a.sin_addr.s_addr = htonl(INADDR_LOOPBACK); a.sin_port = htons(B->transport_port());
@@ -213,6 +269,16 @@ int main() {
         // mode 3: the control plane of the node that holds the chunk
         std::mutex node_mutex;
         dm::ControlServer::Impl impl(*publisher, node_mutex, {});
+        auto hang_up = [&](const std::string& request) {
+            // the client sends its request and closes the connection before the daemon answers
+            int sv[2]; ::socketpair(AF_UNIX, SOCK_STREAM, 0, sv);
+            (void)!::send(sv[1], request.data(), request.size(), MSG_NOSIGNAL);
+            ::close(sv[1]);
+            bool threw = false;
+            try { impl.handle_client(sv[0], "harness"); } catch (...) { threw = true; }
+            ::close(sv[0]);
+            return threw;
+        };
         auto exchange = [&](const std::string& request) {
             int sv[2]; ::socketpair(AF_UNIX, SOCK_STREAM, 0, sv);
             std::string response;
@@ -230,6 +296,15 @@ int main() {
             const i64 rkind = in.next();
             std::string request;
             if (rkind == 0) request = in.str();                       // raw request bytes
+            else if (rkind == 2) {
+                const i64 st = in.next();
+                request = "COMMAND:FETCH\nMANIFEST:" + genuine_uri + "\n" + (st ? "STREAM:client\n" : "OUT:" + (outdir / ("h" + std::to_string(q))).string() + "\n") + "\n";
+                const bool threw = hang_up(request);
+                out.put(threw ? 1 : 0); out.put(-9);
+                const auto [threw2, pong] = exchange("COMMAND:PING\n\n");
+                out.put(!threw2 && code_of(pong) == 50 ? 1 : 0);
+                continue;
+            }
             else {
                 // a FETCH described by kinds: MANIFEST absent / genuine / corrupted / undecodable, OUT absent / empty / a file / a path below a
                 // regular file, STREAM off / on
